@@ -1,1 +1,1604 @@
-fn main(){ println!("{}", serde_json::json!({"a":1.5})); }
+//! C18 Rust reference driver.
+//!
+//! Reads API scripts (JSON lines), executes every step by calling the *wrapped Rust API* of the
+//! `similari` crate directly (never the Py* wrapper types: the crate is built without the `python`
+//! feature), and prints one canonical JSON line per step. This file is the table that says which
+//! Rust call every Python-visible name is supposed to wrap, which parameter names the Python side
+//! is documented to accept and which default values the documentation gives.
+//!
+//! usage: pydrv <scripts.jsonl> <out.jsonl>
+//!
+//! Step result conventions (shared with py_runner.py):
+//!   value                       canonical value (floats as {"f": <16 hex digits of the f64 bits>})
+//!   {"error": true}             the API call failed (panic / invalid argument / missing binding)
+//!   {"driver_error": "..."}     this driver does not know the operation: machinery error
+
+#![allow(dead_code)]
+
+use geo::{Area, CoordsIter, Polygon};
+use nalgebra::Point2;
+use serde_json::{json, Map, Value};
+use similari::prelude::{
+    BatchSort, BoundingBox, PositionalMetricType, Sort, SortTrack, Universal2DBox, VisualSort,
+    VisualSortMetricType, VisualSortObservation, VisualSortOptions,
+};
+use similari::trackers::batch::PredictionBatchResult;
+use similari::trackers::sort::batch_api::SortPredictionBatchRequest;
+use similari::trackers::sort::{VotingType, WastedSortTrack};
+use similari::trackers::spatio_temporal_constraints::SpatioTemporalConstraints;
+use similari::trackers::tracker_api::TrackerAPI;
+use similari::trackers::visual_sort::batch_api::{
+    BatchVisualSort, VisualSortPredictionBatchRequest,
+};
+use similari::trackers::visual_sort::{VisualSortObservationSet, WastedVisualSortTrack};
+use similari::utils::kalman::kalman_2d_box::{Universal2DBoxKalmanFilter, DIM_2D_BOX_X2};
+use similari::utils::kalman::kalman_2d_point::{Point2DKalmanFilter, DIM_2D_POINT_X2};
+use similari::utils::kalman::kalman_2d_point_vec::Vec2DKalmanFilter;
+use similari::utils::kalman::KalmanState;
+use similari::utils::nms::nms;
+use std::cell::RefCell;
+use std::collections::HashMap;
+use std::io::{BufRead, BufReader, BufWriter, Write};
+use std::panic::{catch_unwind, AssertUnwindSafe};
+use std::rc::Rc;
+use std::time::{Duration, Instant};
+
+// ---------------------------------------------------------------------------------------------
+// Documented defaults (see evidence `assumptions` for the source of each value).
+// ---------------------------------------------------------------------------------------------
+const DOC_KALMAN_POSITION_WEIGHT: f32 = 1.0 / 20.0;
+const DOC_KALMAN_VELOCITY_WEIGHT: f32 = 1.0 / 160.0;
+const DOC_SORT_SHARDS: usize = 4;
+const DOC_SORT_BBOX_HISTORY: usize = 1;
+const DOC_SORT_MAX_IDLE_EPOCHS: usize = 5;
+const DOC_SORT_METHOD: PositionalMetricType = PositionalMetricType::Mahalanobis;
+const DOC_SORT_MIN_CONFIDENCE: f32 = 0.05;
+const DOC_BATCH_DISTANCE_SHARDS: usize = 4;
+const DOC_BATCH_VOTING_SHARDS: usize = 4;
+
+// ---------------------------------------------------------------------------------------------
+// Errors
+// ---------------------------------------------------------------------------------------------
+enum E {
+    /// the API rejects the call (what Python reports as an exception)
+    Api,
+    /// the driver itself cannot execute the step
+    Driver(String),
+}
+type R<T> = Result<T, E>;
+
+macro_rules! drv {
+    ($($arg:tt)*) => { Err(E::Driver(format!($($arg)*))) };
+}
+
+// ---------------------------------------------------------------------------------------------
+// Objects
+// ---------------------------------------------------------------------------------------------
+enum Obj {
+    UBox(Universal2DBox),
+    BBox(BoundingBox),
+    Poly(Polygon<f64>),
+    BoxKF(Universal2DBoxKalmanFilter),
+    BoxKFState(KalmanState<DIM_2D_BOX_X2>),
+    PointKF(Point2DKalmanFilter),
+    PointKFState(KalmanState<DIM_2D_POINT_X2>),
+    VecKF(Vec2DKalmanFilter),
+    Stc(SpatioTemporalConstraints),
+    PosMetric(PositionalMetricType),
+    VisMetric(VisualSortMetricType),
+    Opts(VisualSortOptions),
+    VObs(VisualSortObservation<'static>),
+    VObsSet(VisualSortObservationSet<'static>),
+    Sort(Sort),
+    VSort(VisualSort),
+    BSort(BatchSort),
+    BVSort(BatchVisualSort),
+    SortReq(SortPredictionBatchRequest),
+    /// request + the result handle that `prediction()` has handed out already (if any)
+    VReq(
+        VisualSortPredictionBatchRequest<'static>,
+        Option<PredictionBatchResult>,
+    ),
+    BatchRes(PredictionBatchResult),
+    Track(SortTrack),
+    WSort(WastedSortTrack),
+    WVis(WastedVisualSortTrack),
+    List(Vec<Obj>),
+    Plain(Value),
+}
+
+impl Obj {
+    fn cls(&self) -> &'static str {
+        match self {
+            Obj::UBox(_) => "Universal2DBox",
+            Obj::BBox(_) => "BoundingBox",
+            Obj::Poly(_) => "Polygon",
+            Obj::BoxKF(_) => "Universal2DBoxKalmanFilter",
+            Obj::BoxKFState(_) => "Universal2DBoxKalmanFilterState",
+            Obj::PointKF(_) => "Point2DKalmanFilter",
+            Obj::PointKFState(_) => "Point2DKalmanFilterState",
+            Obj::VecKF(_) => "Vec2DKalmanFilter",
+            Obj::Stc(_) => "SpatioTemporalConstraints",
+            Obj::PosMetric(_) => "PositionalMetricType",
+            Obj::VisMetric(_) => "VisualSortMetricType",
+            Obj::Opts(_) => "VisualSortOptions",
+            Obj::VObs(_) => "VisualSortObservation",
+            Obj::VObsSet(_) => "VisualSortObservationSet",
+            Obj::Sort(_) => "Sort",
+            Obj::VSort(_) => "VisualSort",
+            Obj::BSort(_) => "BatchSort",
+            Obj::BVSort(_) => "BatchVisualSort",
+            Obj::SortReq(_) => "SortPredictionBatchRequest",
+            Obj::VReq(..) => "VisualSortPredictionBatchRequest",
+            Obj::BatchRes(_) => "PredictionBatchResult",
+            Obj::Track(_) => "SortTrack",
+            Obj::WSort(_) => "WastedSortTrack",
+            Obj::WVis(_) => "WastedVisualSortTrack",
+            Obj::List(_) => "list",
+            Obj::Plain(_) => "plain",
+        }
+    }
+
+    /// copy of a value object (what PyO3 does when a `Clone` pyclass is passed by value)
+    fn try_clone(&self) -> R<Obj> {
+        Ok(match self {
+            Obj::UBox(b) => Obj::UBox(b.clone()),
+            Obj::BBox(b) => Obj::BBox(*b),
+            Obj::Poly(p) => Obj::Poly(p.clone()),
+            Obj::BoxKFState(s) => Obj::BoxKFState(*s),
+            Obj::PointKFState(s) => Obj::PointKFState(*s),
+            Obj::Stc(s) => Obj::Stc(s.clone()),
+            Obj::PosMetric(m) => Obj::PosMetric(*m),
+            Obj::VisMetric(m) => Obj::VisMetric(*m),
+            Obj::Opts(o) => Obj::Opts(o.clone()),
+            Obj::VObs(o) => Obj::VObs(o.clone()),
+            Obj::BatchRes(r) => Obj::BatchRes(r.clone()),
+            Obj::Track(t) => Obj::Track(t.clone()),
+            Obj::WSort(t) => Obj::WSort(t.clone()),
+            Obj::WVis(t) => Obj::WVis(t.clone()),
+            Obj::Plain(v) => Obj::Plain(v.clone()),
+            Obj::List(l) => Obj::List(l.iter().map(|o| o.try_clone()).collect::<R<Vec<_>>>()?),
+            other => return drv!("object of class {} cannot be copied", other.cls()),
+        })
+    }
+}
+
+type Table = HashMap<String, Rc<RefCell<Obj>>>;
+
+// Same-named newtypes: the Python side formats `PyX(inner)` with the derived `Debug`; a derived `Debug`
+// of a tuple struct with the same name around (a reference to) the same Rust value prints the same text.
+#[derive(Debug)]
+struct PyPolygon<'a>(&'a Polygon<f64>);
+#[derive(Debug)]
+struct PySortTrack<'a>(&'a SortTrack);
+#[derive(Debug)]
+struct PyVotingType<'a>(&'a VotingType);
+#[derive(Debug)]
+struct PyPositionalMetricType<'a>(&'a PositionalMetricType);
+#[derive(Debug)]
+struct PyVisualSortMetricType<'a>(&'a VisualSortMetricType);
+#[derive(Debug)]
+struct PyVisualSortObservation<'a>(&'a VisualSortObservation<'static>);
+#[derive(Debug)]
+struct PyVisualSortObservationSet<'a>(&'a VisualSortObservationSet<'static>);
+
+// ---------------------------------------------------------------------------------------------
+// Canonical values
+// ---------------------------------------------------------------------------------------------
+fn cf64(x: f64) -> Value {
+    if x.is_nan() {
+        json!({"f": "nan"})
+    } else {
+        json!({ "f": format!("{:016x}", x.to_bits()) })
+    }
+}
+fn cf32(x: f32) -> Value {
+    // f32 -> f64 is exact; this is the conversion PyO3 applies to an f32 return value
+    cf64(x as f64)
+}
+fn copt_f32(x: Option<f32>) -> Value {
+    x.map(cf32).unwrap_or(Value::Null)
+}
+fn copt_i64(x: Option<i64>) -> Value {
+    x.map(|v| json!(v)).unwrap_or(Value::Null)
+}
+fn err_val() -> Value {
+    json!({"error": true})
+}
+fn object(cls: &str, fields: Map<String, Value>) -> Value {
+    json!({"cls": cls, "fields": Value::Object(fields)})
+}
+
+fn dump_ubox(b: &Universal2DBox, top: bool) -> Value {
+    let mut f = Map::new();
+    f.insert("xc".into(), cf32(b.xc));
+    f.insert("yc".into(), cf32(b.yc));
+    f.insert("angle".into(), copt_f32(b.angle));
+    f.insert("aspect".into(), cf32(b.aspect));
+    f.insert("height".into(), cf32(b.height));
+    f.insert("confidence".into(), cf32(b.confidence));
+    f.insert("get_radius".into(), cf32(b.get_radius()));
+    f.insert("area".into(), cf32(b.area()));
+    if top {
+        f.insert("repr".into(), json!(format!("{:?}", b)));
+    }
+    object("Universal2DBox", f)
+}
+
+fn dump_bbox(b: &BoundingBox, top: bool) -> Value {
+    let mut f = Map::new();
+    f.insert("left".into(), cf32(b.left));
+    f.insert("top".into(), cf32(b.top));
+    f.insert("width".into(), cf32(b.width));
+    f.insert("height".into(), cf32(b.height));
+    f.insert("confidence".into(), cf32(b.confidence));
+    if top {
+        f.insert("repr".into(), json!(format!("{:?}", b)));
+    }
+    object("BoundingBox", f)
+}
+
+fn points_of(p: &Polygon<f64>) -> Value {
+    Value::Array(
+        p.coords_iter()
+            .map(|c| json!([cf64(c.x), cf64(c.y)]))
+            .collect(),
+    )
+}
+
+fn dump_poly(p: &Polygon<f64>, top: bool) -> Value {
+    let mut f = Map::new();
+    f.insert("get_points".into(), points_of(p));
+    if top {
+        f.insert("repr".into(), json!(format!("{:?}", PyPolygon(p))));
+    }
+    object("Polygon", f)
+}
+
+fn boxes(v: &[Universal2DBox]) -> Value {
+    Value::Array(v.iter().map(|b| dump_ubox(b, false)).collect())
+}
+
+fn dump_track(t: &SortTrack, top: bool) -> Value {
+    let mut f = Map::new();
+    f.insert("id".into(), json!(t.id));
+    f.insert("epoch".into(), json!(t.epoch));
+    f.insert("predicted_bbox".into(), dump_ubox(&t.predicted_bbox, false));
+    f.insert("observed_bbox".into(), dump_ubox(&t.observed_bbox, false));
+    f.insert("scene_id".into(), json!(t.scene_id));
+    f.insert("length".into(), json!(t.length));
+    f.insert(
+        "voting_type".into(),
+        json!({
+            "repr": format!("{:?}", PyVotingType(&t.voting_type)),
+            "str": format!("{:#?}", PyVotingType(&t.voting_type)),
+        }),
+    );
+    f.insert("custom_object_id".into(), copt_i64(t.custom_object_id));
+    if top {
+        f.insert("repr".into(), json!(format!("{:?}", PySortTrack(t))));
+    }
+    object("SortTrack", f)
+}
+
+fn dump_wsort(t: &WastedSortTrack, top: bool) -> Value {
+    let mut f = Map::new();
+    f.insert("id".into(), json!(t.id));
+    f.insert("epoch".into(), json!(t.epoch));
+    f.insert("predicted_bbox".into(), dump_ubox(&t.predicted_bbox, false));
+    f.insert("observed_bbox".into(), dump_ubox(&t.observed_bbox, false));
+    f.insert("scene_id".into(), json!(t.scene_id));
+    f.insert("length".into(), json!(t.length));
+    f.insert("predicted_boxes".into(), boxes(&t.predicted_boxes));
+    f.insert("observed_boxes".into(), boxes(&t.observed_boxes));
+    if top {
+        f.insert("repr".into(), json!(format!("{:?}", t)));
+    }
+    object("WastedSortTrack", f)
+}
+
+fn dump_wvis(t: &WastedVisualSortTrack, top: bool) -> Value {
+    let mut f = Map::new();
+    f.insert("id".into(), json!(t.id));
+    f.insert("epoch".into(), json!(t.epoch));
+    f.insert("predicted_bbox".into(), dump_ubox(&t.predicted_bbox, false));
+    f.insert("observed_bbox".into(), dump_ubox(&t.observed_bbox, false));
+    f.insert("scene_id".into(), json!(t.scene_id));
+    f.insert("length".into(), json!(t.length));
+    f.insert("predicted_boxes".into(), boxes(&t.predicted_boxes));
+    f.insert("observed_boxes".into(), boxes(&t.observed_boxes));
+    f.insert(
+        "observed_features".into(),
+        Value::Array(
+            t.observed_features
+                .iter()
+                .map(|o| match o {
+                    None => Value::Null,
+                    Some(v) => Value::Array(v.iter().map(|x| cf32(*x)).collect()),
+                })
+                .collect(),
+        ),
+    );
+    if top {
+        f.insert("repr".into(), json!(format!("{:?}", t)));
+    }
+    object("WastedVisualSortTrack", f)
+}
+
+fn dump_box_state(s: &KalmanState<DIM_2D_BOX_X2>) -> Value {
+    let mut f = Map::new();
+    // Python: universal_bbox() = Universal2DBox::try_from(state).unwrap(); bbox() = as_ltwh of that
+    let ub = catch_unwind(AssertUnwindSafe(|| Universal2DBox::try_from(*s)));
+    match ub {
+        Ok(Ok(b)) => {
+            f.insert("universal_bbox".into(), dump_ubox(&b, false));
+            match BoundingBox::try_from(&b) {
+                Ok(bb) => f.insert("bbox".into(), dump_bbox(&bb, false)),
+                Err(_) => f.insert("bbox".into(), err_val()),
+            };
+        }
+        _ => {
+            f.insert("universal_bbox".into(), err_val());
+            f.insert("bbox".into(), err_val());
+        }
+    }
+    object("Universal2DBoxKalmanFilterState", f)
+}
+
+fn dump_point_state(s: &KalmanState<DIM_2D_POINT_X2>) -> Value {
+    let p: Point2<f32> = Point2::from(*s);
+    let mut f = Map::new();
+    f.insert("x".into(), cf32(p.x));
+    f.insert("y".into(), cf32(p.y));
+    object("Point2DKalmanFilterState", f)
+}
+
+fn repr_of(o: &Obj, pretty: bool) -> R<String> {
+    macro_rules! fmt {
+        ($v:expr) => {
+            if pretty {
+                format!("{:#?}", $v)
+            } else {
+                format!("{:?}", $v)
+            }
+        };
+    }
+    Ok(match o {
+        // BoundingBox / Universal2DBox: __str__ is defined as __repr__ (`{:?}` of the inner value)
+        Obj::UBox(b) => format!("{:?}", b),
+        Obj::BBox(b) => format!("{:?}", b),
+        Obj::Poly(p) => fmt!(PyPolygon(p)),
+        Obj::PosMetric(m) => fmt!(PyPositionalMetricType(m)),
+        Obj::VisMetric(m) => fmt!(PyVisualSortMetricType(m)),
+        Obj::Track(t) => fmt!(PySortTrack(t)),
+        Obj::WSort(t) => fmt!(t),
+        Obj::WVis(t) => fmt!(t),
+        Obj::Opts(o) => fmt!(o),
+        Obj::VObs(o) => fmt!(PyVisualSortObservation(o)),
+        Obj::VObsSet(s) => fmt!(PyVisualSortObservationSet(s)),
+        other => return drv!("repr/str of class {} is not reproducible", other.cls()),
+    })
+}
+
+fn dump(o: &Obj, top: bool) -> Value {
+    match o {
+        Obj::UBox(b) => dump_ubox(b, top),
+        Obj::BBox(b) => dump_bbox(b, top),
+        Obj::Poly(p) => dump_poly(p, top),
+        Obj::BoxKFState(s) => dump_box_state(s),
+        Obj::PointKFState(s) => dump_point_state(s),
+        Obj::Track(t) => dump_track(t, top),
+        Obj::WSort(t) => dump_wsort(t, top),
+        Obj::WVis(t) => dump_wvis(t, top),
+        Obj::PosMetric(_) | Obj::VisMetric(_) | Obj::Opts(_) | Obj::VObs(_) | Obj::VObsSet(_) => {
+            let mut f = Map::new();
+            f.insert("repr".into(), json!(repr_of(o, false).unwrap_or_default()));
+            f.insert("str".into(), json!(repr_of(o, true).unwrap_or_default()));
+            object(o.cls(), f)
+        }
+        Obj::List(l) => Value::Array(l.iter().map(|x| dump(x, top)).collect()),
+        Obj::Plain(v) => v.clone(),
+        other => json!({ "cls": other.cls() }),
+    }
+}
+
+// ---------------------------------------------------------------------------------------------
+// Arguments
+// ---------------------------------------------------------------------------------------------
+/// Resolves positional + keyword arguments against the documented parameter list
+/// (`(name, has_default)`), with Python's rules: too many / unknown / duplicated / missing => error.
+fn params(step: &Value, spec: &[(&str, bool)]) -> R<Vec<Option<Value>>> {
+    let empty_a = Vec::new();
+    let empty_k = Map::new();
+    let pos = step.get("args").and_then(|v| v.as_array()).unwrap_or(&empty_a);
+    let kw = step
+        .get("kwargs")
+        .and_then(|v| v.as_object())
+        .unwrap_or(&empty_k);
+    if pos.len() > spec.len() {
+        return Err(E::Api);
+    }
+    for k in kw.keys() {
+        if !spec.iter().any(|(n, _)| n == k) {
+            return Err(E::Api);
+        }
+    }
+    let mut out = Vec::with_capacity(spec.len());
+    for (i, (name, has_default)) in spec.iter().enumerate() {
+        let p = pos.get(i);
+        let k = kw.get(*name);
+        match (p, k) {
+            (Some(_), Some(_)) => return Err(E::Api),
+            (Some(v), None) | (None, Some(v)) => out.push(Some(v.clone())),
+            (None, None) => {
+                if *has_default {
+                    out.push(None)
+                } else {
+                    return Err(E::Api);
+                }
+            }
+        }
+    }
+    Ok(out)
+}
+
+/// all parameters required
+fn req(step: &Value, names: &[&str]) -> R<Vec<Value>> {
+    let spec: Vec<(&str, bool)> = names.iter().map(|n| (*n, false)).collect();
+    Ok(params(step, &spec)?.into_iter().map(|v| v.unwrap()).collect())
+}
+
+fn f32v(v: &Value) -> R<f32> {
+    match v {
+        Value::Number(n) => Ok(n.as_f64().ok_or(E::Api)? as f32),
+        _ => Err(E::Api),
+    }
+}
+fn opt_f32v(v: &Value) -> R<Option<f32>> {
+    if v.is_null() {
+        Ok(None)
+    } else {
+        f32v(v).map(Some)
+    }
+}
+fn i64v(v: &Value) -> R<i64> {
+    match v {
+        Value::Number(n) if n.is_i64() || n.is_u64() => n.as_i64().ok_or(E::Api),
+        _ => Err(E::Api),
+    }
+}
+fn opt_i64v(v: &Value) -> R<Option<i64>> {
+    if v.is_null() {
+        Ok(None)
+    } else {
+        i64v(v).map(Some)
+    }
+}
+fn usizev(v: &Value) -> R<usize> {
+    usize::try_from(i64v(v)?).map_err(|_| E::Api)
+}
+fn u64v(v: &Value) -> R<u64> {
+    u64::try_from(i64v(v)?).map_err(|_| E::Api)
+}
+fn boolv(v: &Value) -> R<bool> {
+    v.as_bool().ok_or(E::Api)
+}
+/// a Python sequence (list or tuple)
+fn seqv(v: &Value) -> R<&Vec<Value>> {
+    match v {
+        Value::Array(a) => Ok(a),
+        Value::Object(m) => m.get("tuple").and_then(|t| t.as_array()).ok_or(E::Api),
+        _ => Err(E::Api),
+    }
+}
+/// a Python tuple of exactly n elements (PyO3 does not accept a list for a Rust tuple)
+fn tuplev(v: &Value, n: usize) -> R<&Vec<Value>> {
+    match v {
+        Value::Object(m) => {
+            let t = m.get("tuple").and_then(|t| t.as_array()).ok_or(E::Api)?;
+            if t.len() == n {
+                Ok(t)
+            } else {
+                Err(E::Api)
+            }
+        }
+        _ => Err(E::Api),
+    }
+}
+fn refname(v: &Value) -> R<&str> {
+    v.as_object()
+        .and_then(|m| m.get("ref"))
+        .and_then(|r| r.as_str())
+        .ok_or(E::Api)
+}
+fn lookup(t: &Table, v: &Value) -> R<Rc<RefCell<Obj>>> {
+    t.get(refname(v)?).cloned().ok_or(E::Api)
+}
+fn uboxv(t: &Table, v: &Value) -> R<Universal2DBox> {
+    match &*lookup(t, v)?.borrow() {
+        Obj::UBox(b) => Ok(b.clone()),
+        _ => Err(E::Api),
+    }
+}
+fn box_statev(t: &Table, v: &Value) -> R<KalmanState<DIM_2D_BOX_X2>> {
+    match &*lookup(t, v)?.borrow() {
+        Obj::BoxKFState(s) => Ok(*s),
+        _ => Err(E::Api),
+    }
+}
+fn point_statev(t: &Table, v: &Value) -> R<KalmanState<DIM_2D_POINT_X2>> {
+    match &*lookup(t, v)?.borrow() {
+        Obj::PointKFState(s) => Ok(*s),
+        _ => Err(E::Api),
+    }
+}
+fn point_state_listv(t: &Table, v: &Value) -> R<Vec<KalmanState<DIM_2D_POINT_X2>>> {
+    match &*lookup(t, v)?.borrow() {
+        Obj::List(l) => l
+            .iter()
+            .map(|o| match o {
+                Obj::PointKFState(s) => Ok(*s),
+                _ => Err(E::Api),
+            })
+            .collect(),
+        _ => Err(E::Api),
+    }
+}
+fn pointsv(v: &Value) -> R<Vec<Point2<f32>>> {
+    seqv(v)?
+        .iter()
+        .map(|p| {
+            let t = tuplev(p, 2)?;
+            Ok(Point2::from([f32v(&t[0])?, f32v(&t[1])?]))
+        })
+        .collect()
+}
+fn pos_metricv(t: &Table, v: &Value) -> R<PositionalMetricType> {
+    match &*lookup(t, v)?.borrow() {
+        Obj::PosMetric(m) => Ok(*m),
+        _ => Err(E::Api),
+    }
+}
+fn vis_metricv(t: &Table, v: &Value) -> R<VisualSortMetricType> {
+    match &*lookup(t, v)?.borrow() {
+        Obj::VisMetric(m) => Ok(*m),
+        _ => Err(E::Api),
+    }
+}
+fn stcv(t: &Table, v: &Value) -> R<SpatioTemporalConstraints> {
+    match &*lookup(t, v)?.borrow() {
+        Obj::Stc(s) => Ok(s.clone()),
+        _ => Err(E::Api),
+    }
+}
+fn optsv(t: &Table, v: &Value) -> R<VisualSortOptions> {
+    match &*lookup(t, v)?.borrow() {
+        Obj::Opts(o) => Ok(o.clone()),
+        _ => Err(E::Api),
+    }
+}
+fn vobsv(t: &Table, v: &Value) -> R<VisualSortObservation<'static>> {
+    match &*lookup(t, v)?.borrow() {
+        Obj::VObs(o) => Ok(o.clone()),
+        _ => Err(E::Api),
+    }
+}
+/// `List[(Universal2DBox, Optional[int])]`
+fn detectionsv(t: &Table, v: &Value) -> R<Vec<(Universal2DBox, Option<i64>)>> {
+    seqv(v)?
+        .iter()
+        .map(|d| {
+            let tu = tuplev(d, 2)?;
+            Ok((uboxv(t, &tu[0])?, opt_i64v(&tu[1])?))
+        })
+        .collect()
+}
+
+type Out = (Value, Option<Obj>);
+fn plain(v: Value) -> R<Out> {
+    Ok((v, None))
+}
+fn bound(o: Obj) -> R<Out> {
+    Ok((dump(&o, true), Some(o)))
+}
+fn none() -> R<Out> {
+    Ok((Value::Null, None))
+}
+fn ints(v: Vec<usize>) -> Value {
+    Value::Array(v.into_iter().map(|x| json!(x)).collect())
+}
+fn tracks(v: Vec<SortTrack>) -> Obj {
+    Obj::List(v.into_iter().map(Obj::Track).collect())
+}
+
+// ---------------------------------------------------------------------------------------------
+// Constructors, static methods, functions
+// ---------------------------------------------------------------------------------------------
+const SORT_PARAMS: [(&str, bool); 8] = [
+    ("shards", true),
+    ("bbox_history", true),
+    ("max_idle_epochs", true),
+    ("method", true),
+    ("min_confidence", true),
+    ("spatio_temporal_constraints", true),
+    ("kalman_position_weight", true),
+    ("kalman_velocity_weight", true),
+];
+const BATCH_SORT_PARAMS: [(&str, bool); 9] = [
+    ("distance_shards", true),
+    ("voting_shards", true),
+    ("bbox_history", true),
+    ("max_idle_epochs", true),
+    ("method", true),
+    ("min_confidence", true),
+    ("spatio_temporal_constraints", true),
+    ("kalman_position_weight", true),
+    ("kalman_velocity_weight", true),
+];
+const KF_PARAMS: [(&str, bool); 2] = [("position_weight", true), ("velocity_weight", true)];
+
+fn kf_weights(step: &Value) -> R<Option<(f32, f32)>> {
+    let a = params(step, &KF_PARAMS)?;
+    if a[0].is_none() && a[1].is_none() {
+        return Ok(None); // the Rust API's own Default impl
+    }
+    let p = match &a[0] {
+        Some(v) => f32v(v)?,
+        None => DOC_KALMAN_POSITION_WEIGHT,
+    };
+    let v = match &a[1] {
+        Some(v) => f32v(v)?,
+        None => DOC_KALMAN_VELOCITY_WEIGHT,
+    };
+    Ok(Some((p, v)))
+}
+
+fn method_or_default(t: &Table, v: &Option<Value>) -> R<PositionalMetricType> {
+    match v {
+        None => Ok(DOC_SORT_METHOD),
+        // Python: `method=None` is the documented way to ask for the default metric
+        Some(Value::Null) => Ok(DOC_SORT_METHOD),
+        Some(v) => pos_metricv(t, v),
+    }
+}
+fn stc_or_none(t: &Table, v: &Option<Value>) -> R<Option<SpatioTemporalConstraints>> {
+    match v {
+        None | Some(Value::Null) => Ok(None),
+        Some(v) => stcv(t, v).map(Some),
+    }
+}
+fn usize_or(v: &Option<Value>, d: usize) -> R<usize> {
+    match v {
+        None => Ok(d),
+        Some(v) => usizev(v),
+    }
+}
+fn f32_or(v: &Option<Value>, d: f32) -> R<f32> {
+    match v {
+        None => Ok(d),
+        Some(v) => f32v(v),
+    }
+}
+
+fn construct(t: &Table, cls: &str, step: &Value) -> R<Out> {
+    match cls {
+        "BoundingBox" => {
+            let a = req(step, &["left", "top", "width", "height"])?;
+            bound(Obj::BBox(BoundingBox::new(
+                f32v(&a[0])?,
+                f32v(&a[1])?,
+                f32v(&a[2])?,
+                f32v(&a[3])?,
+            )))
+        }
+        "Universal2DBox" => {
+            let a = req(step, &["xc", "yc", "angle", "aspect", "height"])?;
+            bound(Obj::UBox(Universal2DBox::new(
+                f32v(&a[0])?,
+                f32v(&a[1])?,
+                opt_f32v(&a[2])?,
+                f32v(&a[3])?,
+                f32v(&a[4])?,
+            )))
+        }
+        "Universal2DBoxKalmanFilter" => bound(Obj::BoxKF(match kf_weights(step)? {
+            None => Universal2DBoxKalmanFilter::default(),
+            Some((p, v)) => Universal2DBoxKalmanFilter::new(p, v),
+        })),
+        "Point2DKalmanFilter" => bound(Obj::PointKF(match kf_weights(step)? {
+            None => Point2DKalmanFilter::default(),
+            Some((p, v)) => Point2DKalmanFilter::new(p, v),
+        })),
+        "Vec2DKalmanFilter" => bound(Obj::VecKF(match kf_weights(step)? {
+            None => Vec2DKalmanFilter::default(),
+            Some((p, v)) => Vec2DKalmanFilter::new(p, v),
+        })),
+        "SpatioTemporalConstraints" => {
+            req(step, &[])?;
+            bound(Obj::Stc(SpatioTemporalConstraints::default()))
+        }
+        "VisualSortOptions" => {
+            req(step, &[])?;
+            bound(Obj::Opts(VisualSortOptions::default()))
+        }
+        "VisualSortObservation" => {
+            let a = req(
+                step,
+                &["feature", "feature_quality", "bounding_box", "custom_object_id"],
+            )?;
+            let feature: Option<&'static [f32]> = if a[0].is_null() {
+                None
+            } else {
+                let v: Vec<f32> = seqv(&a[0])?.iter().map(f32v).collect::<R<_>>()?;
+                Some(Box::leak(v.into_boxed_slice()))
+            };
+            bound(Obj::VObs(VisualSortObservation::new(
+                feature,
+                opt_f32v(&a[1])?,
+                uboxv(t, &a[2])?,
+                opt_i64v(&a[3])?,
+            )))
+        }
+        "VisualSortObservationSet" => {
+            req(step, &[])?;
+            bound(Obj::VObsSet(VisualSortObservationSet::new()))
+        }
+        "SortPredictionBatchRequest" => {
+            req(step, &[])?;
+            bound(Obj::SortReq(SortPredictionBatchRequest::new()))
+        }
+        "VisualSortPredictionBatchRequest" => {
+            req(step, &[])?;
+            bound(Obj::VReq(VisualSortPredictionBatchRequest::new(), None))
+        }
+        "Sort" => {
+            let a = params(step, &SORT_PARAMS)?;
+            bound(Obj::Sort(Sort::new(
+                usize_or(&a[0], DOC_SORT_SHARDS)?,
+                usize_or(&a[1], DOC_SORT_BBOX_HISTORY)?,
+                usize_or(&a[2], DOC_SORT_MAX_IDLE_EPOCHS)?,
+                method_or_default(t, &a[3])?,
+                f32_or(&a[4], DOC_SORT_MIN_CONFIDENCE)?,
+                stc_or_none(t, &a[5])?,
+                f32_or(&a[6], DOC_KALMAN_POSITION_WEIGHT)?,
+                f32_or(&a[7], DOC_KALMAN_VELOCITY_WEIGHT)?,
+            )))
+        }
+        "BatchSort" => {
+            let a = params(step, &BATCH_SORT_PARAMS)?;
+            bound(Obj::BSort(BatchSort::new(
+                usize_or(&a[0], DOC_BATCH_DISTANCE_SHARDS)?,
+                usize_or(&a[1], DOC_BATCH_VOTING_SHARDS)?,
+                usize_or(&a[2], DOC_SORT_BBOX_HISTORY)?,
+                usize_or(&a[3], DOC_SORT_MAX_IDLE_EPOCHS)?,
+                method_or_default(t, &a[4])?,
+                f32_or(&a[5], DOC_SORT_MIN_CONFIDENCE)?,
+                stc_or_none(t, &a[6])?,
+                f32_or(&a[7], DOC_KALMAN_POSITION_WEIGHT)?,
+                f32_or(&a[8], DOC_KALMAN_VELOCITY_WEIGHT)?,
+            )))
+        }
+        "VisualSort" => {
+            let a = req(step, &["shards", "opts"])?;
+            let shards = usizev(&a[0])?;
+            let opts = optsv(t, &a[1])?;
+            bound(Obj::VSort(VisualSort::new(shards, &opts)))
+        }
+        "BatchVisualSort" => {
+            let a = req(step, &["distance_shards", "voting_shards", "opts"])?;
+            let d = usizev(&a[0])?;
+            let v = usizev(&a[1])?;
+            let opts = optsv(t, &a[2])?;
+            bound(Obj::BVSort(BatchVisualSort::new(d, v, &opts)))
+        }
+        // classes that Python cannot construct: Polygon, SortTrack, Wasted*, *State, PredictionBatchResult,
+        // PositionalMetricType, VisualSortMetricType
+        "Polygon" | "SortTrack" | "WastedSortTrack" | "WastedVisualSortTrack"
+        | "Universal2DBoxKalmanFilterState" | "Point2DKalmanFilterState"
+        | "PredictionBatchResult" | "PositionalMetricType" | "VisualSortMetricType" => Err(E::Api),
+        _ => drv!("unknown class {cls}"),
+    }
+}
+
+fn static_call(_t: &Table, cls: &str, method: &str, step: &Value) -> R<Out> {
+    match (cls, method) {
+        ("BoundingBox", "new_with_confidence") => {
+            let a = req(step, &["left", "top", "width", "height", "confidence"])?;
+            bound(Obj::BBox(BoundingBox::new_with_confidence(
+                f32v(&a[0])?,
+                f32v(&a[1])?,
+                f32v(&a[2])?,
+                f32v(&a[3])?,
+                f32v(&a[4])?,
+            )))
+        }
+        ("Universal2DBox", "new_with_confidence") => {
+            let a = req(
+                step,
+                &["xc", "yc", "angle", "aspect", "height", "confidence"],
+            )?;
+            bound(Obj::UBox(Universal2DBox::new_with_confidence(
+                f32v(&a[0])?,
+                f32v(&a[1])?,
+                opt_f32v(&a[2])?,
+                f32v(&a[3])?,
+                f32v(&a[4])?,
+                f32v(&a[5])?,
+            )))
+        }
+        ("Universal2DBox", "ltwh") => {
+            let a = req(step, &["left", "top", "width", "height"])?;
+            bound(Obj::UBox(Universal2DBox::ltwh(
+                f32v(&a[0])?,
+                f32v(&a[1])?,
+                f32v(&a[2])?,
+                f32v(&a[3])?,
+            )))
+        }
+        ("Universal2DBox", "ltwh_with_confidence") => {
+            let a = req(step, &["left", "top", "width", "height", "confidence"])?;
+            bound(Obj::UBox(Universal2DBox::ltwh_with_confidence(
+                f32v(&a[0])?,
+                f32v(&a[1])?,
+                f32v(&a[2])?,
+                f32v(&a[3])?,
+                f32v(&a[4])?,
+            )))
+        }
+        ("PositionalMetricType", "maha") => {
+            req(step, &[])?;
+            bound(Obj::PosMetric(PositionalMetricType::Mahalanobis))
+        }
+        ("PositionalMetricType", "iou") => {
+            let a = req(step, &["threshold"])?;
+            bound(Obj::PosMetric(PositionalMetricType::IoU(f32v(&a[0])?)))
+        }
+        ("VisualSortMetricType", "euclidean") => {
+            let a = req(step, &["threshold"])?;
+            bound(Obj::VisMetric(VisualSortMetricType::euclidean(f32v(&a[0])?)))
+        }
+        ("VisualSortMetricType", "cosine") => {
+            let a = req(step, &["threshold"])?;
+            bound(Obj::VisMetric(VisualSortMetricType::cosine(f32v(&a[0])?)))
+        }
+        ("Universal2DBoxKalmanFilter", "calculate_cost") => {
+            let a = req(step, &["distance", "inverted"])?;
+            plain(cf32(Universal2DBoxKalmanFilter::calculate_cost(
+                f32v(&a[0])?,
+                boolv(&a[1])?,
+            )))
+        }
+        ("Point2DKalmanFilter", "calculate_cost") => {
+            let a = req(step, &["distance", "inverted"])?;
+            plain(cf32(Point2DKalmanFilter::calculate_cost(
+                f32v(&a[0])?,
+                boolv(&a[1])?,
+            )))
+        }
+        ("Vec2DKalmanFilter", "calculate_cost") => {
+            let a = req(step, &["distances", "inverted"])?;
+            let d: Vec<f32> = seqv(&a[0])?.iter().map(f32v).collect::<R<_>>()?;
+            plain(Value::Array(
+                Vec2DKalmanFilter::calculate_cost(&d, boolv(&a[1])?)
+                    .into_iter()
+                    .map(cf32)
+                    .collect(),
+            ))
+        }
+        _ => drv!("unknown static method {cls}.{method}"),
+    }
+}
+
+fn func(t: &Table, name: &str, step: &Value) -> R<Out> {
+    match name {
+        "version" => {
+            req(step, &[])?;
+            match std::env::var("C18_CRATE_VERSION") {
+                Ok(v) => plain(json!(v)),
+                Err(_) => drv!("C18_CRATE_VERSION is not set"),
+            }
+        }
+        "nms" => {
+            let a = req(step, &["detections", "nms_threshold", "score_threshold"])?;
+            let dets: Vec<(Universal2DBox, Option<f32>)> = seqv(&a[0])?
+                .iter()
+                .map(|d| {
+                    let tu = tuplev(d, 2)?;
+                    Ok((uboxv(t, &tu[0])?, opt_f32v(&tu[1])?))
+                })
+                .collect::<R<_>>()?;
+            let res: Vec<Universal2DBox> = nms(&dets, f32v(&a[1])?, opt_f32v(&a[2])?)
+                .into_iter()
+                .cloned()
+                .collect();
+            bound(Obj::List(res.into_iter().map(Obj::UBox).collect()))
+        }
+        "sutherland_hodgman_clip" => {
+            let a = req(step, &["subject", "clipping"])?;
+            let s = uboxv(t, &a[0])?;
+            let c = uboxv(t, &a[1])?;
+            bound(Obj::Poly(s.sutherland_hodgman_clip(c)))
+        }
+        "intersection_area" => {
+            let a = req(step, &["subject", "clipping"])?;
+            let s = uboxv(t, &a[0])?;
+            let c = uboxv(t, &a[1])?;
+            plain(cf64(s.sutherland_hodgman_clip(c).unsigned_area()))
+        }
+        _ => drv!("unknown function {name}"),
+    }
+}
+
+// ---------------------------------------------------------------------------------------------
+// Methods
+// ---------------------------------------------------------------------------------------------
+macro_rules! tracker_common {
+    ($trk:expr, $method:expr, $step:expr, $wasted:expr) => {{
+        let trk = $trk;
+        match $method {
+            "skip_epochs" => {
+                let a = req($step, &["n"])?;
+                trk.skip_epochs(usizev(&a[0])?);
+                Some(none())
+            }
+            "skip_epochs_for_scene" => {
+                let a = req($step, &["scene_id", "n"])?;
+                trk.skip_epochs_for_scene(u64v(&a[0])?, usizev(&a[1])?);
+                Some(none())
+            }
+            "shard_stats" => {
+                req($step, &[])?;
+                Some(plain(ints(trk.active_shard_stats())))
+            }
+            "current_epoch" => {
+                req($step, &[])?;
+                Some(plain(json!(trk.current_epoch())))
+            }
+            "current_epoch_with_scene" => {
+                let a = req($step, &["scene_id"])?;
+                Some(plain(json!(trk.current_epoch_with_scene(u64v(&a[0])?))))
+            }
+            "wasted" => {
+                req($step, &[])?;
+                let w: Vec<Obj> = trk.wasted().into_iter().map($wasted).collect();
+                Some(bound(Obj::List(w)))
+            }
+            "clear_wasted" => {
+                req($step, &[])?;
+                trk.clear_wasted();
+                Some(none())
+            }
+            _ => None,
+        }
+    }};
+}
+
+fn wsort(
+    t: similari::track::Track<
+        similari::trackers::sort::SortAttributes,
+        similari::trackers::sort::metric::SortMetric,
+        Universal2DBox,
+    >,
+) -> Obj {
+    Obj::WSort(WastedSortTrack::from(t))
+}
+fn wvis(
+    t: similari::track::Track<
+        similari::trackers::visual_sort::track_attributes::VisualAttributes,
+        similari::trackers::visual_sort::metric::VisualMetric,
+        similari::trackers::visual_sort::observation_attributes::VisualObservationAttributes,
+    >,
+) -> Obj {
+    Obj::WVis(WastedVisualSortTrack::from(t))
+}
+
+fn vobs_setv<'a>(t: &'a Table, v: &Value) -> R<Rc<RefCell<Obj>>> {
+    let o = lookup(t, v)?;
+    let ok = matches!(&*o.borrow(), Obj::VObsSet(_));
+    if ok {
+        Ok(o)
+    } else {
+        Err(E::Api)
+    }
+}
+
+fn method_call(t: &Table, target: &Rc<RefCell<Obj>>, method: &str, step: &Value) -> R<Out> {
+    let mut guard = target.borrow_mut();
+    let cls = guard.cls();
+    match &mut *guard {
+        Obj::BBox(b) => match method {
+            "as_xyaah" => {
+                req(step, &[])?;
+                bound(Obj::UBox(b.as_xyaah()))
+            }
+            _ => drv!("unknown method {cls}.{method}"),
+        },
+        Obj::UBox(b) => match method {
+            "get_radius" => {
+                req(step, &[])?;
+                plain(cf32(b.get_radius()))
+            }
+            "area" => {
+                req(step, &[])?;
+                plain(cf32(b.area()))
+            }
+            "as_ltwh" => {
+                req(step, &[])?;
+                match BoundingBox::try_from(&*b) {
+                    Ok(bb) => bound(Obj::BBox(bb)),
+                    Err(_) => Err(E::Api),
+                }
+            }
+            "gen_vertices" => {
+                req(step, &[])?;
+                b.gen_vertices();
+                none()
+            }
+            "get_vertices" => {
+                req(step, &[])?;
+                bound(Obj::Poly(b.get_vertices()))
+            }
+            "rotate" => {
+                // the Python method mutates in place: the in-place Rust call is `rotate_mut`
+                let a = req(step, &["angle"])?;
+                b.rotate_mut(f32v(&a[0])?);
+                none()
+            }
+            _ => drv!("unknown method {cls}.{method}"),
+        },
+        Obj::Poly(p) => match method {
+            "get_points" => {
+                req(step, &[])?;
+                plain(points_of(p))
+            }
+            _ => drv!("unknown method {cls}.{method}"),
+        },
+        Obj::BoxKF(f) => match method {
+            "initiate" => {
+                let a = req(step, &["bbox"])?;
+                bound(Obj::BoxKFState(f.initiate(&uboxv(t, &a[0])?)))
+            }
+            "predict" => {
+                let a = req(step, &["state"])?;
+                bound(Obj::BoxKFState(f.predict(&box_statev(t, &a[0])?)))
+            }
+            "update" => {
+                let a = req(step, &["state", "bbox"])?;
+                bound(Obj::BoxKFState(
+                    f.update(&box_statev(t, &a[0])?, &uboxv(t, &a[1])?),
+                ))
+            }
+            "distance" => {
+                let a = req(step, &["state", "bbox"])?;
+                plain(cf32(f.distance(box_statev(t, &a[0])?, &uboxv(t, &a[1])?)))
+            }
+            _ => drv!("unknown method {cls}.{method}"),
+        },
+        Obj::BoxKFState(s) => match method {
+            "universal_bbox" => {
+                req(step, &[])?;
+                bound(Obj::UBox(Universal2DBox::try_from(*s).map_err(|_| E::Api)?))
+            }
+            "bbox" => {
+                req(step, &[])?;
+                bound(Obj::BBox(BoundingBox::try_from(*s).map_err(|_| E::Api)?))
+            }
+            _ => drv!("unknown method {cls}.{method}"),
+        },
+        Obj::PointKF(f) => match method {
+            "initiate" => {
+                let a = req(step, &["x", "y"])?;
+                bound(Obj::PointKFState(
+                    f.initiate(&Point2::from([f32v(&a[0])?, f32v(&a[1])?])),
+                ))
+            }
+            "predict" => {
+                let a = req(step, &["state"])?;
+                bound(Obj::PointKFState(f.predict(&point_statev(t, &a[0])?)))
+            }
+            "update" => {
+                let a = req(step, &["state", "x", "y"])?;
+                bound(Obj::PointKFState(f.update(
+                    &point_statev(t, &a[0])?,
+                    &Point2::from([f32v(&a[1])?, f32v(&a[2])?]),
+                )))
+            }
+            "distance" => {
+                let a = req(step, &["state", "x", "y"])?;
+                plain(cf32(f.distance(
+                    &point_statev(t, &a[0])?,
+                    &Point2::from([f32v(&a[1])?, f32v(&a[2])?]),
+                )))
+            }
+            _ => drv!("unknown method {cls}.{method}"),
+        },
+        Obj::PointKFState(s) => {
+            let p: Point2<f32> = Point2::from(*s);
+            match method {
+                "x" => {
+                    req(step, &[])?;
+                    plain(cf32(p.x))
+                }
+                "y" => {
+                    req(step, &[])?;
+                    plain(cf32(p.y))
+                }
+                _ => drv!("unknown method {cls}.{method}"),
+            }
+        }
+        Obj::VecKF(f) => {
+            let states = |v: Vec<KalmanState<DIM_2D_POINT_X2>>| {
+                Obj::List(v.into_iter().map(Obj::PointKFState).collect())
+            };
+            match method {
+                "initiate" => {
+                    let a = req(step, &["points"])?;
+                    bound(states(f.initiate(&pointsv(&a[0])?)))
+                }
+                "predict" => {
+                    let a = req(step, &["state"])?;
+                    bound(states(f.predict(&point_state_listv(t, &a[0])?)))
+                }
+                "update" => {
+                    let a = req(step, &["state", "points"])?;
+                    bound(states(
+                        f.update(&point_state_listv(t, &a[0])?, &pointsv(&a[1])?),
+                    ))
+                }
+                "distance" => {
+                    let a = req(step, &["state", "points"])?;
+                    plain(Value::Array(
+                        f.distance(&point_state_listv(t, &a[0])?, &pointsv(&a[1])?)
+                            .into_iter()
+                            .map(cf32)
+                            .collect(),
+                    ))
+                }
+                _ => drv!("unknown method {cls}.{method}"),
+            }
+        }
+        Obj::Stc(s) => match method {
+            "add_constraints" => {
+                let a = req(step, &["constraints"])?;
+                let c: Vec<(usize, f32)> = seqv(&a[0])?
+                    .iter()
+                    .map(|e| {
+                        let tu = tuplev(e, 2)?;
+                        Ok((usizev(&tu[0])?, f32v(&tu[1])?))
+                    })
+                    .collect::<R<_>>()?;
+                s.add_constraints(c);
+                none()
+            }
+            "validate" => {
+                let a = req(step, &["epoch_delta", "dist"])?;
+                plain(json!(s.validate(usizev(&a[0])?, f32v(&a[1])?)))
+            }
+            _ => drv!("unknown method {cls}.{method}"),
+        },
+        Obj::Opts(o) => {
+            // Python setters mutate in place; the Rust API offers the consuming builder methods of the
+            // same names. A rejected value leaves the options unchanged on both sides.
+            let cur = o.clone();
+            let new = match method {
+                "max_idle_epochs" => cur.max_idle_epochs(usizev(&req(step, &["n"])?[0])?),
+                "kept_history_length" => cur.kept_history_length(usizev(&req(step, &["n"])?[0])?),
+                "visual_min_votes" => cur.visual_min_votes(usizev(&req(step, &["n"])?[0])?),
+                "visual_metric" => cur.visual_metric(vis_metricv(t, &req(step, &["metric"])?[0])?),
+                "spatio_temporal_constraints" => {
+                    cur.spatio_temporal_constraints(stcv(t, &req(step, &["constraints"])?[0])?)
+                }
+                "positional_metric" => {
+                    cur.positional_metric(pos_metricv(t, &req(step, &["metric"])?[0])?)
+                }
+                "visual_minimal_track_length" => {
+                    cur.visual_minimal_track_length(usizev(&req(step, &["length"])?[0])?)
+                }
+                "visual_minimal_area" => cur.visual_minimal_area(f32v(&req(step, &["area"])?[0])?),
+                "visual_minimal_quality_use" => {
+                    cur.visual_minimal_quality_use(f32v(&req(step, &["q"])?[0])?)
+                }
+                "positional_min_confidence" => {
+                    cur.positional_min_confidence(f32v(&req(step, &["conf"])?[0])?)
+                }
+                "visual_max_observations" => {
+                    cur.visual_max_observations(usizev(&req(step, &["n"])?[0])?)
+                }
+                "visual_minimal_quality_collect" => {
+                    cur.visual_minimal_quality_collect(f32v(&req(step, &["q"])?[0])?)
+                }
+                "visual_minimal_own_area_percentage_use" => {
+                    cur.visual_minimal_own_area_percentage_use(f32v(&req(step, &["area"])?[0])?)
+                }
+                "visual_minimal_own_area_percentage_collect" => {
+                    cur.visual_minimal_own_area_percentage_collect(f32v(&req(step, &["area"])?[0])?)
+                }
+                "kalman_position_weight" => {
+                    cur.kalman_position_weight(f32v(&req(step, &["weight"])?[0])?)
+                }
+                "kalman_velocity_weight" => {
+                    cur.kalman_velocity_weight(f32v(&req(step, &["weight"])?[0])?)
+                }
+                _ => return drv!("unknown method {cls}.{method}"),
+            };
+            *o = new;
+            none()
+        }
+        Obj::VObsSet(s) => match method {
+            "add" => {
+                let a = req(step, &["observation"])?;
+                s.add(vobsv(t, &a[0])?);
+                none()
+            }
+            _ => drv!("unknown method {cls}.{method}"),
+        },
+        Obj::Sort(trk) => {
+            if let Some(r) = tracker_common!(&mut *trk, method, step, wsort) {
+                return r;
+            }
+            match method {
+                "predict" => {
+                    let a = req(step, &["bboxes"])?;
+                    bound(tracks(trk.predict(&detectionsv(t, &a[0])?)))
+                }
+                "predict_with_scene" => {
+                    let a = req(step, &["scene_id", "bboxes"])?;
+                    let scene = u64v(&a[0])?;
+                    bound(tracks(
+                        trk.predict_with_scene(scene, &detectionsv(t, &a[1])?),
+                    ))
+                }
+                "idle_tracks" => {
+                    req(step, &[])?;
+                    bound(tracks(trk.idle_tracks()))
+                }
+                "idle_tracks_with_scene" => {
+                    let a = req(step, &["scene_id"])?;
+                    bound(tracks(trk.idle_tracks_with_scene(u64v(&a[0])?)))
+                }
+                _ => drv!("unknown method {cls}.{method}"),
+            }
+        }
+        Obj::VSort(trk) => {
+            if let Some(r) = tracker_common!(&mut *trk, method, step, wvis) {
+                return r;
+            }
+            match method {
+                "predict" => {
+                    let a = req(step, &["observation_set"])?;
+                    let set = vobs_setv(t, &a[0])?;
+                    let set = set.borrow();
+                    let Obj::VObsSet(s) = &*set else { unreachable!() };
+                    bound(tracks(trk.predict(&s.inner)))
+                }
+                "predict_with_scene" => {
+                    let a = req(step, &["scene_id", "observation_set"])?;
+                    let scene = u64v(&a[0])?;
+                    let set = vobs_setv(t, &a[1])?;
+                    let set = set.borrow();
+                    let Obj::VObsSet(s) = &*set else { unreachable!() };
+                    bound(tracks(trk.predict_with_scene(scene, &s.inner)))
+                }
+                "idle_tracks" => {
+                    req(step, &[])?;
+                    bound(tracks(trk.idle_tracks()))
+                }
+                // Python-visible name of `idle_tracks_with_scene`
+                "idle_tracks_with_scene_py" => {
+                    let a = req(step, &["scene_id"])?;
+                    bound(tracks(trk.idle_tracks_with_scene(u64v(&a[0])?)))
+                }
+                _ => drv!("unknown method {cls}.{method}"),
+            }
+        }
+        Obj::BSort(trk) => {
+            if let Some(r) = tracker_common!(&mut *trk, method, step, wsort) {
+                return r;
+            }
+            match method {
+                "predict" => {
+                    let a = req(step, &["batch"])?;
+                    let r = lookup(t, &a[0])?;
+                    // PyO3 passes the request by value: a copy that shares the result channel
+                    let mut copy = match &*r.borrow() {
+                        Obj::SortReq(q) => q.clone(),
+                        _ => return Err(E::Api),
+                    };
+                    let res = copy.result.take();
+                    trk.predict(copy.batch);
+                    bound(Obj::BatchRes(res.ok_or(E::Api)?))
+                }
+                // Python: idle_tracks(scene_id)
+                "idle_tracks" => {
+                    let a = req(step, &["scene_id"])?;
+                    bound(tracks(trk.idle_tracks_with_scene(u64v(&a[0])?)))
+                }
+                _ => drv!("unknown method {cls}.{method}"),
+            }
+        }
+        Obj::BVSort(trk) => {
+            if let Some(r) = tracker_common!(&mut *trk, method, step, wvis) {
+                return r;
+            }
+            match method {
+                "predict" => {
+                    let a = req(step, &["py_batch"])?;
+                    let r = lookup(t, &a[0])?;
+                    let (mut copy, handed_out) = match &*r.borrow() {
+                        Obj::VReq(q, h) => (q.clone(), h.clone()),
+                        _ => return Err(E::Api),
+                    };
+                    // the results of a batch arrive at the handle that belongs to its request
+                    let res = copy.prediction().or(handed_out);
+                    trk.predict(copy.batch);
+                    bound(Obj::BatchRes(res.ok_or(E::Api)?))
+                }
+                "idle_tracks" => {
+                    let a = req(step, &["scene_id"])?;
+                    bound(tracks(trk.idle_tracks_with_scene(u64v(&a[0])?)))
+                }
+                _ => drv!("unknown method {cls}.{method}"),
+            }
+        }
+        Obj::SortReq(q) => match method {
+            "add" => {
+                let a = params(
+                    step,
+                    &[
+                        ("scene_id", false),
+                        ("bbox", false),
+                        ("custom_object_id", true),
+                    ],
+                )?;
+                let scene = u64v(a[0].as_ref().unwrap())?;
+                let b = uboxv(t, a[1].as_ref().unwrap())?;
+                let id = match &a[2] {
+                    None => None, // documented default
+                    Some(v) => opt_i64v(v)?,
+                };
+                q.add(scene, b, id);
+                none()
+            }
+            _ => drv!("unknown method {cls}.{method}"),
+        },
+        Obj::VReq(q, handed_out) => match method {
+            "add" => {
+                let a = req(step, &["scene_id", "elt"])?;
+                q.add(u64v(&a[0])?, vobsv(t, &a[1])?);
+                none()
+            }
+            "prediction" => {
+                req(step, &[])?;
+                match q.prediction() {
+                    Some(r) => {
+                        *handed_out = Some(r.clone());
+                        bound(Obj::BatchRes(r))
+                    }
+                    None => none(),
+                }
+            }
+            _ => drv!("unknown method {cls}.{method}"),
+        },
+        Obj::BatchRes(r) => match method {
+            "ready" => {
+                req(step, &[])?;
+                plain(json!(r.ready()))
+            }
+            "batch_size" => {
+                req(step, &[])?;
+                plain(json!(r.batch_size()))
+            }
+            "get" => {
+                req(step, &[])?;
+                let (scene, trks) = r.get();
+                let l = tracks(trks);
+                plain(json!([scene, dump(&l, true)]))
+            }
+            _ => drv!("unknown method {cls}.{method}"),
+        },
+        _ => drv!("class {cls} has no methods ({method})"),
+    }
+}
+
+fn get_attr(target: &Rc<RefCell<Obj>>, attr: &str) -> R<Out> {
+    let g = target.borrow();
+    match (&*g, attr) {
+        (Obj::BBox(b), "left") => plain(cf32(b.left)),
+        (Obj::BBox(b), "top") => plain(cf32(b.top)),
+        (Obj::BBox(b), "width") => plain(cf32(b.width)),
+        (Obj::BBox(b), "height") => plain(cf32(b.height)),
+        (Obj::BBox(b), "confidence") => plain(cf32(b.confidence)),
+        (Obj::UBox(b), "xc") => plain(cf32(b.xc)),
+        (Obj::UBox(b), "yc") => plain(cf32(b.yc)),
+        (Obj::UBox(b), "angle") => plain(copt_f32(b.angle)),
+        (Obj::UBox(b), "aspect") => plain(cf32(b.aspect)),
+        (Obj::UBox(b), "height") => plain(cf32(b.height)),
+        (Obj::UBox(b), "confidence") => plain(cf32(b.confidence)),
+        (o, a) => drv!("unknown attribute {}.{a}", o.cls()),
+    }
+}
+
+fn set_attr(target: &Rc<RefCell<Obj>>, attr: &str, v: &Value) -> R<Out> {
+    let mut g = target.borrow_mut();
+    match (&mut *g, attr) {
+        (Obj::BBox(b), "left") => b.left = f32v(v)?,
+        (Obj::BBox(b), "top") => b.top = f32v(v)?,
+        (Obj::BBox(b), "width") => b.width = f32v(v)?,
+        (Obj::BBox(b), "height") => b.height = f32v(v)?,
+        // the ltwh box has public fields only: no validating setter exists in the Rust API
+        (Obj::BBox(b), "confidence") => b.confidence = f32v(v)?,
+        (Obj::UBox(b), "xc") => b.xc = f32v(v)?,
+        (Obj::UBox(b), "yc") => b.yc = f32v(v)?,
+        (Obj::UBox(b), "angle") => b.angle = opt_f32v(v)?,
+        (Obj::UBox(b), "aspect") => b.aspect = f32v(v)?,
+        (Obj::UBox(b), "height") => b.height = f32v(v)?,
+        (Obj::UBox(b), "confidence") => b.set_confidence(f32v(v)?),
+        (o, a) => return drv!("unknown settable attribute {}.{a}", o.cls()),
+    }
+    none()
+}
+
+// ---------------------------------------------------------------------------------------------
+// Steps
+// ---------------------------------------------------------------------------------------------
+fn sfield<'a>(step: &'a Value, name: &str) -> R<&'a str> {
+    match step.get(name).and_then(|v| v.as_str()) {
+        Some(s) => Ok(s),
+        None => drv!("step without string field {name}"),
+    }
+}
+
+fn target(t: &Table, step: &Value) -> R<Rc<RefCell<Obj>>> {
+    let on = sfield(step, "on")?;
+    // a missing binding is the consequence of an earlier failed step: an API-level error on both sides
+    t.get(on).cloned().ok_or(E::Api)
+}
+
+fn exec(t: &Table, step: &Value) -> R<Out> {
+    let op = sfield(step, "op")?;
+    match op {
+        "new" => construct(t, sfield(step, "cls")?, step),
+        "static" => static_call(t, sfield(step, "cls")?, sfield(step, "method")?, step),
+        "func" => func(t, sfield(step, "name")?, step),
+        "call" => {
+            let tg = target(t, step)?;
+            method_call(t, &tg, sfield(step, "method")?, step)
+        }
+        "get" => get_attr(&target(t, step)?, sfield(step, "attr")?),
+        "set" => {
+            let v = step.get("value").cloned().unwrap_or(Value::Null);
+            set_attr(&target(t, step)?, sfield(step, "attr")?, &v)
+        }
+        "dump" => {
+            let tg = target(t, step)?;
+            let g = tg.borrow();
+            plain(dump(&g, true))
+        }
+        "repr" => {
+            let tg = target(t, step)?;
+            let g = tg.borrow();
+            plain(json!(repr_of(&g, false)?))
+        }
+        "str" => {
+            let tg = target(t, step)?;
+            let g = tg.borrow();
+            plain(json!(repr_of(&g, true)?))
+        }
+        "item" => {
+            let tg = target(t, step)?;
+            let g = tg.borrow();
+            let idx = step.get("index").and_then(|v| v.as_u64()).unwrap_or(0) as usize;
+            match &*g {
+                Obj::List(l) => match l.get(idx) {
+                    Some(o) => bound(o.try_clone()?),
+                    None => Err(E::Api),
+                },
+                _ => Err(E::Api),
+            }
+        }
+        // PredictionBatchResult.get() called n times; the (scene, tracks) pairs ordered by scene id
+        "collect" => {
+            let tg = target(t, step)?;
+            let g = tg.borrow();
+            let n = step.get("n").and_then(|v| v.as_u64()).unwrap_or(0) as usize;
+            match &*g {
+                Obj::BatchRes(r) => {
+                    let mut all = Vec::new();
+                    for _ in 0..n {
+                        all.push(r.get());
+                    }
+                    all.sort_by_key(|(s, _)| *s);
+                    plain(Value::Array(
+                        all.into_iter()
+                            .map(|(s, trks)| json!([s, dump(&tracks(trks), true)]))
+                            .collect(),
+                    ))
+                }
+                _ => Err(E::Api),
+            }
+        }
+        // PredictionBatchResult.ready() polled until true or until the timeout expires
+        "wait_ready" => {
+            let tg = target(t, step)?;
+            let g = tg.borrow();
+            let ms = step
+                .get("timeout_ms")
+                .and_then(|v| v.as_u64())
+                .unwrap_or(1000);
+            match &*g {
+                Obj::BatchRes(r) => {
+                    let t0 = Instant::now();
+                    let mut ready = r.ready();
+                    while !ready && t0.elapsed() < Duration::from_millis(ms) {
+                        std::thread::sleep(Duration::from_millis(2));
+                        ready = r.ready();
+                    }
+                    plain(json!(ready))
+                }
+                _ => Err(E::Api),
+            }
+        }
+        other => drv!("unknown op {other}"),
+    }
+}
+
+fn main() {
+    let args: Vec<String> = std::env::args().collect();
+    if args.len() != 3 {
+        eprintln!("usage: pydrv <scripts.jsonl> <out.jsonl>");
+        std::process::exit(2);
+    }
+    // API panics are results, not noise
+    std::panic::set_hook(Box::new(|_| {}));
+    let input = BufReader::new(std::fs::File::open(&args[1]).expect("cannot open scripts"));
+    let mut out = BufWriter::new(std::fs::File::create(&args[2]).expect("cannot create output"));
+    let mut scripts = 0usize;
+    let mut steps_total = 0usize;
+    for line in input.lines() {
+        let line = line.expect("read error");
+        if line.trim().is_empty() {
+            continue;
+        }
+        let script: Value = serde_json::from_str(&line).expect("script is not JSON");
+        let id = script.get("id").cloned().unwrap_or(Value::Null);
+        let empty = Vec::new();
+        let steps = script
+            .get("steps")
+            .and_then(|s| s.as_array())
+            .unwrap_or(&empty);
+        let mut table: Table = HashMap::new();
+        for (k, step) in steps.iter().enumerate() {
+            let r = catch_unwind(AssertUnwindSafe(|| exec(&table, step)));
+            let result = match r {
+                Ok(Ok((val, obj))) => {
+                    if let (Some(name), Some(obj)) =
+                        (step.get("bind").and_then(|b| b.as_str()), obj)
+                    {
+                        table.insert(name.to_string(), Rc::new(RefCell::new(obj)));
+                    }
+                    val
+                }
+                Ok(Err(E::Api)) => err_val(),
+                Ok(Err(E::Driver(m))) => json!({ "driver_error": m }),
+                Err(_) => err_val(),
+            };
+            writeln!(
+                out,
+                "{}",
+                json!({"script": id, "step": k, "result": result})
+            )
+            .expect("write error");
+            steps_total += 1;
+        }
+        // dropping the trackers joins their worker threads
+        let _ = catch_unwind(AssertUnwindSafe(move || drop(table)));
+        scripts += 1;
+    }
+    writeln!(
+        out,
+        "{}",
+        json!({"done": true, "scripts": scripts, "steps": steps_total})
+    )
+    .expect("write error");
+    out.flush().expect("flush error");
+}
